@@ -303,8 +303,11 @@ type Pairs<'a, T> = box_iter::BoxIter<'a, (T, T)>;
 
 /// Run `self` and `r` and return the cartesian product of their outputs.
 fn cartesian<'a, D: DataT>(l: &'a Id, r: &'a Id, cv: Cv<'a, D>) -> Pairs<'a, ValX<'a, D::V<'a>>> {
-    flat_map_with(l.run(cv.clone()), cv, move |l, cv| {
-        map_with(r.run(cv), l, |r, l| (l, r))
+    flat_map_with(l.run(cv.clone()), cv, move |l, cv| match l {
+        Ok(_) => map_with(r.run(cv), l, |r, l| (l, r)),
+        // yield an error of `l` even if `r` yields no output,
+        // because `l + r` is equivalent to `l as $x | r as $y | $x + $y`
+        Err(e) => box_once((Err(e.clone()), Err(e))),
     })
 }
 
